@@ -16,7 +16,7 @@ RULE = sqlmon.RULE_HISTORIES + ' Job DAGs: in-update and cross-update parents, r
 ASSUMPTIONS = sqlmon.COMMON_ASSUMPTIONS
 SHARDS = {'quick': 4, 'thorough': 16}
 TIMEOUT = {'quick': 900, 'thorough': 3600}
-FLOORS = {'scripted_children_checked': 60, 'scripted_scenarios': 8, 'jobs_with_parents_observed_live': 100, 'children_cancelled_by_failed_parent': 10, 'histories_free_of_known_patterns': 50}
+FLOORS = {'scripted_children_checked': 40, 'scripted_scenarios': 10, 'scripted_live_parent_commits': 10, 'jobs_with_parents_observed_live': 100, 'children_cancelled_by_failed_parent': 10, 'histories_free_of_known_patterns': 50}
 
 
 class Deps(Monitor):
@@ -37,7 +37,10 @@ class Deps(Monitor):
                     ctx.count('children_cancelled_by_failed_parent')
 
 
-OUTCOMES = ['Success', 'Failed', 'Error', 'Cancelled-by-failed-grandparent', 'Cancelled-by-group-cancel']
+OUTCOMES = ['Success', 'Failed', 'Error', 'Cancelled-by-failed-grandparent', 'Cancelled-by-group-cancel',
+            # the parent is still live (Ready / Creating on a job-private VM / Running) when the children's update is committed:
+            # the children must stay Pending (decided by the after-every-commit oracle)
+            'Live-at-commit-Ready', 'Live-at-commit-Creating', 'Live-at-commit-Running']
 
 
 async def scripted(runner, w, fz, rng):
@@ -65,6 +68,8 @@ async def scripted(runner, w, fz, rng):
     validate_job_groups(gs)
     await fe._create_job_groups(w.db, bid, u1, user, gs)
     jobs = [spec(1), spec(2, in_update_parent_ids=[1], in_update_job_group_id=1)]
+    if outcome == 'Live-at-commit-Creating':
+        jobs[1]['resources'] = {'machine_type': 'n1-standard-1', 'preemptible': True, 'storage': '1Gi'}
     validate_and_clean_jobs(jobs)
     await fe._create_jobs(ud, jobs, bid, u1, w.fe_app)
     await fe._commit_update(w.fe_app, bid, u1, user, w.db)
@@ -88,6 +93,25 @@ async def scripted(runner, w, fz, rng):
                 st = {'batch_id': bid, 'job_id': jid, 'attempt_id': a['attempt_id'], 'job_group_id': a.get('job_group_id', 0), 'state': state,
                       'start_time': now, 'end_time': now + 1, 'status': {}, 'resources': []}
                 await w.dm.job_complete(fz._worker_request(fz._instance_of(a), {'status': st}))
+    if outcome.startswith('Live-at-commit'):
+        await run_job(1, 'succeeded')
+        if outcome.endswith('Creating'):
+            await w.jpim.create_instances_loop_body()
+            await fz._drain()
+            for i in w.jpim.name_instance.values():
+                w.instances.setdefault(i.name, i)
+            fz.sync_attempts_from_db()
+        elif outcome.endswith('Running'):
+            await w.pools['standard'].scheduler.schedule_loop_body()
+            await fz._drain()
+            fz.sync_attempts_from_db()
+        from vf.world.oracles import View as _V
+        st = _V(w.engine).jobs[(bid, 2)]['state']
+        ctx.seen('scripted_live_parent_state_at_commit', st)
+        if st == outcome.rsplit('-', 1)[1]:
+            ctx.count('scripted_live_parent_commits')
+        await second_update()  # the on_commit oracle judges the children here
+        return
     if commit_first:
         await second_update()
     if outcome in ('Success', 'Failed', 'Error'):
